@@ -40,6 +40,12 @@ $(OBJ)/valloc.o: src/alloc/valloc.cpp | $(OBJ)
 $(BUILD)/rc-$(SAN)/%.o: src/gen/%.cpp | $(BUILD)/rc-$(SAN)
 	$(CXX) -std=gnu++17 -g -fno-omit-frame-pointer -Isrc $(FLAGS_$(SAN)) -MMD -MP -c $< -o $@
 
+$(OBJ)/narrow%.o: src/drv/narrow%.cpp | $(OBJ)
+	$(CXX) $(CXXFLAGS) -Wno-keyword-macro -fwrapv -fno-sanitize=signed-integer-overflow -DMEMUTILS_C='"$(REPO)/src/cbor/internal/memory_utils.c"' -MMD -MP -c $< -o $@
+$(OBJ)/drv_arithp.o: src/drv/drv_arith.cpp | $(OBJ)
+	$(CXX) $(CXXFLAGS) -DNO_INTERNALS -MMD -MP -c $< -o $@
+$(BIN)/drv_arith: $(OBJ)/drv_arith.o $(OBJ)/narrow8.o $(OBJ)/narrow16.o $(OBJ)/valloc.o $(LIB) | $(BIN)
+	$(CXX) $< $(OBJ)/narrow8.o $(OBJ)/narrow16.o $(OBJ)/valloc.o $(LIB) $(LDFLAGS) -o $@
 $(BIN)/drv_%: $(OBJ)/drv_%.o $(OBJ)/valloc.o $(LIB) | $(BIN)
 	$(CXX) $< $(OBJ)/valloc.o $(LIB) $(LDFLAGS) -o $@
 $(BIN)/rc_%: $(OBJ)/rcd_%.o $(BUILD)/rc-$(SAN)/rc_%.o $(OBJ)/valloc.o $(LIB) | $(BIN)
